@@ -156,9 +156,10 @@ def deb_scenarios(r, thorough):
 class ProcTable:
     """simulated processes: spawn, self-exit at a scripted virtual time, signals"""
 
-    def __init__(self, sched, log, lifetimes):
+    def __init__(self, sched, log, lifetimes, kill_delay=0):
         self.sched, self.log = sched, log
         self.lifetimes = list(lifetimes)   # lifetime (ticks) of successive children; None = runs until killed
+        self.kill_delay = kill_delay       # ticks a child takes to die of a signal other than 9 (it handles the signal)
         self.procs = {}
         self.next_pid = 1000
 
@@ -177,7 +178,7 @@ class ProcTable:
 
     def alive(self, pid):
         p = self.procs[pid]
-        if p["killed"] is not None:
+        if p["killed"] is not None and self.clock() >= p["killed"]:
             return False
         return p["dies"] is None or self.clock() < p["dies"]
 
@@ -187,7 +188,9 @@ class ProcTable:
     def kill(self, pid, sig):
         if not self.alive(pid):
             raise ProcessLookupError(3, "No such process")
-        self.procs[pid]["killed"] = self.clock()
+        at = self.clock() if sig == 9 else self.clock() + int(self.kill_delay * TICK * 1000)
+        old = self.procs[pid]["killed"]
+        self.procs[pid]["killed"] = at if old is None else min(old, at)
         self.log.append(f"kill:{pid}:{sig}@{self.clock()}")
 
 
@@ -202,7 +205,7 @@ def make_trick_run(kind, plan, line_preempt=False):
 
         sched = detsched.Scheduler(chooser, max_steps=60000 if line_preempt else 6000, line_preempt=line_preempt)
         log = []
-        table = ProcTable(sched, log, plan.get("lifetimes", []))
+        table = ProcTable(sched, log, plan.get("lifetimes", []), plan.get("kill_delay", 0))
 
         class FakePopen:
             def __init__(self, *a, **k):
@@ -354,6 +357,17 @@ def run(res, tier, lean, proof_breaks=(), build_log=""):
         ("restart", {"lifetimes": [None] * 5, "threads": [[("start",), ("sleep", 2), ("stop",)], [("sleep", 2), ("event",)]]}),
         ("restart", {"lifetimes": [2, None, None, None], "threads": [[("start",), ("sleep", 2), ("event",), ("sleep", 3), ("stop",)]]}),
         ("restart", {"lifetimes": [2, None, None, None], "threads": [[("start",), ("sleep", 2), ("stop",)]]}),
+        # the child exits by itself at the very instant an event arrives (the watcher's 0.1 s poll and the event meet at
+        # t = 0.5 s on the quantised virtual clock): the watcher's restart and the event's restart run concurrently
+        ("restart", {"lifetimes": [4, None, None, None, None], "threads": [[("start",), ("sleep", 12), ("stop",)], [("sleep", 4), ("event",)]]}),
+        ("restart", {"lifetimes": [4, None, None, None, None], "debounce": 2,
+                     "threads": [[("start",), ("sleep", 12), ("stop",)], [("sleep", 2), ("event",)]]}),
+        ("restart", {"lifetimes": [4, 4, None, None, None, None], "threads": [[("start",), ("sleep", 4), ("event",), ("sleep", 4), ("event",), ("sleep", 4), ("stop",)]]}),
+        # an event while start() is still running; stop() while an event's restart is waiting for a slow-dying child
+        ("restart", {"lifetimes": [None] * 4, "threads": [[("start",), ("sleep", 4), ("stop",)], [("event",)]]}),
+        ("restart", {"lifetimes": [None] * 4, "kill_delay": 3, "threads": [[("start",), ("sleep", 2), ("stop",)], [("sleep", 2), ("event",)]]}),
+        ("restart", {"lifetimes": [None] * 4, "kill_delay": 3, "threads": [[("start",), ("sleep", 3), ("stop",)], [("sleep", 2), ("event",)]]}),
+        ("restart", {"lifetimes": [None] * 4, "kill_delay": 12, "threads": [[("start",), ("sleep", 3), ("stop",)], [("sleep", 2), ("event",)]]}),
         ("shell", {"lifetimes": [3, 3, 3], "wait": True, "threads": [[("event",), ("event",), ("sleep", 1), ("event",)]]}),
         ("shell", {"lifetimes": [4, 4, 4], "wait": True, "drop": True,
                    "threads": [[("event",), ("event",)], [("sleep", 1), ("event",), ("sleep", 1), ("event",)]]}),
